@@ -362,24 +362,26 @@ impl Out {
 /// One call family on one operand tuple: the outcomes of every form of the operation.
 #[derive(Clone, Debug)]
 pub struct RawEv {
+    pub sem: &'static str,
     pub op: &'static str,
     pub args: Vec<Arg>,
     pub forms: Vec<(&'static str, Out, String)>, // (form, outcome, panic message)
 }
 
 /// Collects the events of one concrete type for one input list.
-#[derive(Default)]
 pub struct Rec {
     pub evs: Vec<RawEv>,
+    /// the property whose semantics judges the following events
+    pub sem: &'static str,
 }
 
 impl Rec {
     pub fn new() -> Self {
-        Rec { evs: Vec::new() }
+        Rec { evs: Vec::new(), sem: "" }
     }
     /// start a family
     pub fn fam(&mut self, op: &'static str, args: Vec<Arg>) {
-        self.evs.push(RawEv { op, args, forms: Vec::new() });
+        self.evs.push(RawEv { sem: self.sem, op, args, forms: Vec::new() });
     }
     /// add one form's outcome to the current family
     pub fn form<F: FnOnce() -> Out>(&mut self, form: &'static str, f: F) {
@@ -459,8 +461,8 @@ impl Sink {
         let mut l = String::with_capacity(256);
         let _ = write!(
             l,
-            "{{\"i\":{},\"p\":\"{}\",\"op\":\"{}\",\"w\":{},\"s\":{},\"mode\":\"{}\",\"impl\":\"{}\",\"ng\":{},\"dts\":[",
-            self.n, self.prop, e.op, w, s, MODE, imp, ngroups
+            "{{\"i\":{},\"chk\":\"{}\",\"p\":\"{}\",\"op\":\"{}\",\"w\":{},\"s\":{},\"mode\":\"{}\",\"impl\":\"{}\",\"ng\":{},\"dts\":[",
+            self.n, self.prop, e.sem, e.op, w, s, MODE, imp, ngroups
         );
         for (i, d) in dts.iter().enumerate() {
             if i > 0 {
